@@ -59,8 +59,16 @@ pub struct Roots {
     pub aroot: AsyncVfsPath,
 }
 
+/// a path of a filesystem created when the process started: it stays alive while hundreds of
+/// thousands of other filesystems come and go (identity must not depend on a recycled token)
+fn elder() -> &'static VfsPath {
+    static ELDER: std::sync::OnceLock<VfsPath> = std::sync::OnceLock::new();
+    ELDER.get_or_init(|| VfsPath::new(MemoryFS::new()))
+}
+
 impl Roots {
     pub fn new() -> Roots {
+        let _ = elder();
         Roots {
             root: VfsPath::new(MemoryFS::new()),
             other: VfsPath::new(MemoryFS::new()),
@@ -136,6 +144,10 @@ pub fn check_pair(r: &Roots, base_arg: &str, arg: &str) -> Result<bool, String> 
         let again = r.root.join(&expect).map_err(|e| format!("re-join of canonical '{}' failed: {}", expect, e))?;
         if again != joined {
             return Err(format!("two paths with canonical string '{}' on one instance are not equal", s));
+        }
+        let old_one = elder().join(&expect).map_err(|e| e.to_string())?;
+        if old_one == joined || *elder() == rt {
+            return Err(format!("path '{}' of a filesystem created at process start compares equal to the same path of a filesystem created just now", s));
         }
         let foreign = r.other.join(&expect).map_err(|e| e.to_string())?;
         if foreign == joined {
@@ -458,7 +470,7 @@ fn check_chain(r: &Roots, chain: &[ChainStep]) -> Result<usize, String> {
     }
 }
 
-const RULE: &str = "(1) EXHAUSTIVE: every string that is a concatenation of <=N tokens over {'/','.','..','a','b.c','é'} (N=7 quick, 10 thorough) joined onto 5 bases, for VfsPath and AsyncVfsPath; (2) random: strings over a wider alphabet (spaces, backslash, combining marks, 4-byte scalars, NUL, up to 64 tokens) and arbitrary Strings, composition pairs, and chains of join/parent/root up to length 12; long arguments (64..700 tokens, and filler runs ending at byte lengths 31..65536 with multi-byte fillers across the edge; component COUNTS at 16..65536 ± 2); chains of up to 24 steps over 8 short names where the same segment recurs on different bases of equal length, with clones kept and dropped in between (join must not depend on the history); joins onto short-lived temporaries (`deep.parent().join(seg)` over 2..8 deep paths with parents of equal byte length, expected values computed beforehand so that the allocator can hand the same address to the next temporary); oracle = 15-line reference resolver + canonical-form predicate + accessor laws (parent, filename, extension, root, is_root, equality across two instances); non-trivial = argument with >=1 '..' and >=1 other component, or a multi-byte character adjacent to a separator, or a chain with >=3 joins; distinct by (base,arg) hash";
+const RULE: &str = "(1) EXHAUSTIVE: every string that is a concatenation of <=N tokens over {'/','.','..','a','b.c','é'} (N=7 quick, 10 thorough) joined onto 5 bases, for VfsPath and AsyncVfsPath; (2) random: strings over a wider alphabet (spaces, backslash, combining marks, 4-byte scalars, NUL, up to 64 tokens) and arbitrary Strings, composition pairs, and chains of join/parent/root up to length 12; long arguments (64..700 tokens, and filler runs ending at byte lengths 31..65536 with multi-byte fillers across the edge; component COUNTS at 16..65536 ± 2); chains of up to 24 steps over 8 short names where the same segment recurs on different bases of equal length, with clones kept and dropped in between (join must not depend on the history); joins onto short-lived temporaries (`deep.parent().join(seg)` over 2..8 deep paths with parents of equal byte length, expected values computed beforehand so that the allocator can hand the same address to the next temporary); oracle = 15-line reference resolver + canonical-form predicate + accessor laws (parent, filename, extension, root, is_root, equality across two instances and against a filesystem that has been alive since process start while millions of others were created); non-trivial = argument with >=1 '..' and >=1 other component, or a multi-byte character adjacent to a separator, or a chain with >=3 joins; distinct by (base,arg) hash";
 
 /// join on SHORT-LIVED bases: every base is a temporary (`deep.parent()`), dropped right after
 /// the join, so that the next temporary may live at the same address with the same length. The
